@@ -8,7 +8,7 @@ use crate::schemes::*;
 use crate::seams::*;
 use crate::session::*;
 use ark_ff::{One, Zero};
-use ark_poly_commit::LabeledCommitment;
+use ark_poly_commit::{LabeledCommitment, PolynomialCommitment};
 use ark_serialize::{CanonicalDeserialize, CanonicalSerialize, Compress, Validate};
 use ark_std::rand::Rng;
 
@@ -196,7 +196,10 @@ pub fn run<S: Scheme>(scn: &Scenario, log: &EventLog) -> RunResult {
     let Some(mut sess) = start_or_vacuous::<S>(scn, log, &mut res) else { return res };
     let mut claims = vec![];
     for (i, op) in scn.ops.iter().enumerate() {
-        let Some(c) = honest_claim(&mut sess, op, i, &mut res) else { break };
+        // no acceptance precondition here: a decision that *changes* with reloaded keys is exactly
+        // what part (5) looks for, also when the session's own (reloaded) keys reject the honest proof
+        let Outcome::Ok(c) = sess.prove(op, i as u64) else { res.stats.probe("vacuous:honest-prover-failed"); break };
+        let Ok(c) = c.through_channel(&scn.env, 500 + i as u64) else { res.violations.push(viol(scn, "io-contract", "roundtrip", "proof", "honest proof lost on a benign channel".into())); break };
         let _ = sess.verify(&c, i as u64);
         claims.push(c);
     }
@@ -231,6 +234,47 @@ pub fn run<S: Scheme>(scn: &Scenario, log: &EventLog) -> RunResult {
     *res.stats.probes.entry("io-cases".into()).or_default() += cases;
     *res.stats.probes.entry("artefacts-offsets-exhaustive".into()).or_default() += ex;
     *res.stats.probes.entry("artefacts-offsets-sampled".into()).or_default() += sa;
+
+    // (5a) keys trimmed from the universal parameters as they came out of `setup` (never serialized)
+    // against the session's keys, which were trimmed from parameters reloaded from the store
+    let pristine_vk: Option<Vk<S>> = {
+        let mut rng_auth = SimRng::new(scn.seed, "authority", 0);
+        let cfg = &scn.cfg;
+        let alt = if cfg.lincode.is_some() { S::alt_setup(cfg, &mut rng_auth) } else { None };
+        let pp0 = match alt {
+            Some(pp) => Some(pp),
+            None => step(|| PcOf::<S>::setup(cfg.max_degree, cfg.num_vars, &mut rng_auth)).ok(),
+        };
+        pp0.and_then(|pp0| step(|| PcOf::<S>::trim(&pp0, cfg.supported_degree, cfg.supported_hiding, cfg.bounds.as_deref())).ok()).map(|(_, vk)| vk)
+    };
+    if let Some(vk0) = &pristine_vk {
+        if to_bytes(vk0, Compress::Yes) != to_bytes(&sess.verifier.vk, Compress::Yes) && S::FAMILY != Family::Brakedown {
+            res.violations.push(viol(scn, "io-contract", "roundtrip", "universal-params", "verifier key trimmed from reloaded universal parameters differs from the one trimmed from the originals".into()));
+        }
+        for (i, claim) in claims.iter().enumerate() {
+            let mut tampered = claim.clone();
+            let tamper_ok = match &mut tampered {
+                Claim::Open { values, .. } => values.get_mut(0).map(|v| *v += S::F::one()).is_some(),
+                Claim::Batch { evals, .. } | Claim::Lc { evals, .. } => evals.values_mut().next().map(|v| *v += S::F::one()).is_some(),
+            };
+            for (which, cl) in [("honest", claim), ("tampered", &tampered)] {
+                if which == "tampered" && !tamper_ok {
+                    continue;
+                }
+                let pre = pre_state::<S>(&sess, &claims, i);
+                let (mut sp1, mut sp2) = (pre.fork(), pre.fork());
+                let (mut r1, mut r2) = (SimRng::new(scn.seed, "c12-dec0", 1), SimRng::new(scn.seed, "c12-dec0", 1));
+                let (d1, _) = Sess::<S>::check_with(vk0, &sess.verifier.comms, cl, &mut sp1, &mut r1, 0);
+                let (d2, w2) = Sess::<S>::check_with(&sess.verifier.vk, &sess.verifier.comms, cl, &mut sp2, &mut r2, 0);
+                res.stats.checks += 2;
+                res.stats.fire("pp-reloaded-then-trimmed");
+                res.classes.insert(format!("{fam}|{}|pp-reload|{}|{}", op_shape(&scn.ops[i], scn), which, d2.name()));
+                if d1.accepted() != d2.accepted() {
+                    res.violations.push(viol(scn, "io-contract", "decision", "universal-params", format!("decision on the {which} claim differs between keys trimmed from the original universal parameters ({}) and from reloaded ones ({}) {}", d1.name(), d2.name(), w2)));
+                }
+            }
+        }
+    }
 
     // (5) decisions with reloaded keys / commitments / proofs equal the decisions with the originals,
     // on the honest claim and on one tampered claim
